@@ -259,3 +259,110 @@ def rule_whitespace_split(repo, col, rels=None):
                         'one)' % unparse(c, 50))
     col.ok(rule, 'biom', '<package>', 'scan', None,
            '%d whitespace splits' % n)
+
+
+# ---------------------------------------------------------------------------
+RULE_TEXT['SB-SNIFFAGREE'] = (
+    'The look-ahead of the classic-text reader that decides whether the '
+    'last column is metadata examines exactly the lines the data loop will '
+    'parse: every line the data loop skips (blank, comment) is skipped by '
+    'the look-ahead as well.')
+
+
+class _Rename(ast.NodeTransformer):
+    def __init__(self, name):
+        self.name = name
+
+    def visit_Name(self, node):
+        if node.id == self.name:
+            return ast.copy_location(ast.Name(id='L', ctx=node.ctx), node)
+        return node
+
+
+def _keeps(test, var, negate=False):
+    """Set of (text, polarity) a line must satisfy, from a filter `test`
+    (negate=False) or from a skip guard (negate=True)."""
+    import copy
+    if isinstance(test, ast.UnaryOp) and isinstance(test.op, ast.Not):
+        return _keeps(test.operand, var, not negate)
+    if isinstance(test, ast.BoolOp):
+        conj = isinstance(test.op, ast.And)
+        if conj != negate:      # and-filter, or or-skip: all parts required
+            out = set()
+            for v in test.values:
+                out |= _keeps(v, var, negate)
+            return out
+        return set()            # a disjunction guarantees no single part
+    t = _Rename(var).visit(copy.deepcopy(test))
+    return {(unparse(t, 200), not negate)}
+
+
+def rule_sniff_agrees(repo, col):
+    rule = 'SB-SNIFFAGREE'
+    q = 'Table._extract_data_from_tsv'
+    if not repo.has_func(TABLE, q):
+        col.unknown(rule, TABLE, q, 'anchor', None, 'function not found')
+        return
+    fn = repo.func(TABLE, q)
+    # the data loop: a `for` that appends the first field to the id list
+    parse = None
+    for s in body_walk(fn):
+        if isinstance(s, ast.For) and isinstance(s.target, (ast.Name,
+                                                            ast.Tuple)):
+            if any(isinstance(c, ast.Call) and isinstance(
+                    c.func, ast.Attribute) and c.func.attr == 'append' and
+                    'ids' in (dotted(c.func.value) or '')
+                    for b in s.body for c in ast.walk(b)):
+                parse = s
+    # the look-ahead: a comprehension taking the last field of each line
+    sniff = None
+    for c in body_walk(fn):
+        if isinstance(c, (ast.ListComp, ast.GeneratorExp)) and any(
+                isinstance(x, ast.Call) and isinstance(x.func, ast.Attribute)
+                and x.func.attr in ('rsplit', 'split')
+                for x in ast.walk(c.elt)) and any(
+                isinstance(x, ast.Subscript) and isinstance(
+                    x.slice, ast.UnaryOp) for x in ast.walk(c.elt)):
+            sniff = c
+    if parse is None or sniff is None:
+        col.unknown(rule, TABLE, q, 'shape', fn,
+                    'data loop or look-ahead not recognised')
+        return
+    lv = parse.target.id if isinstance(parse.target, ast.Name) else next(
+        (e.id for e in reversed(parse.target.elts)
+         if isinstance(e, ast.Name)), None)
+    need = set()
+    for s in parse.body:
+        if isinstance(s, ast.If) and len(s.body) == 1 and isinstance(
+                s.body[0], ast.Continue) and not s.orelse:
+            need |= _keeps(s.test, lv, negate=True)
+    gen = sniff.generators[0]
+    sv = gen.target.id if isinstance(gen.target, ast.Name) else None
+    have = set()
+    for t in gen.ifs:
+        have |= _keeps(t, sv)
+    # filters applied where the examined lines are collected
+    if isinstance(gen.iter, ast.Name):
+        defs = [a for a in body_walk(fn) if isinstance(a, ast.Assign) and any(
+            isinstance(t, ast.Name) and t.id == gen.iter.id
+            for t in a.targets)]
+        common = None
+        for a in defs:
+            k = set()
+            if isinstance(a.value, (ast.ListComp, ast.GeneratorExp)):
+                g = a.value.generators[0]
+                if isinstance(g.target, ast.Name):
+                    for t in g.ifs:
+                        k |= _keeps(t, g.target.id)
+            common = k if common is None else common & k
+        have |= common or set()
+    missing = need - have
+    col.check(not missing, rule, TABLE, q, 'same-lines', sniff,
+              'the look-ahead filters %d skip condition(s) of the data loop'
+              % len(need),
+              'the data loop skips lines unless %s, the look-ahead that '
+              'decides whether the last column is metadata does not: a '
+              'blank or comment line among the data lines makes the last '
+              'sample column "non-numeric" and it is imported as metadata'
+              % ' and '.join('%s%s' % ('' if p else 'not ', t)
+                             for t, p in sorted(missing)))
